@@ -625,6 +625,41 @@ fn bounds(sp: &Space, jobs: usize, delays: &[u64]) -> Value {
 }
 const ASSUME: &str = "two-state deterministic gadget machines (S-library), traces of a few packets with gaps {0,1,3,7}us, delays {0,2,5}us, no integration delays; the per-side replay through a fresh Framework with the same seed recovers the actions the simulator acted on (C05 determinism)";
 
+/// Supplementary *sampled* systems: generated 3-6 state machines (all action kinds, counters, limits, signals, END,
+/// dyadic probabilities; `fam::corpus_machine`) on one or both sides over the enumerated traces and delays, drawn from
+/// a seeded stream. They never decide a verdict alone (every failure is replayed like any other) and are counted
+/// separately in the evidence; the exhaustive claim is about the enumerated systems only.
+pub fn corpus_systems(sp: &Space, seed: u64, count: usize, delays: &[u64]) -> Vec<SimSys> {
+    use rand_core::{RngCore, SeedableRng};
+    let mut v = Vec::with_capacity(count);
+    for k in 0..count {
+        let mut r = rand_xoshiro::Xoshiro256StarStar::seed_from_u64(seed.wrapping_mul(0x9E37_79B9_7F4A_7C15).wrapping_add(k as u64));
+        let nc = match r.next_u32() % 8 { 0 => 0, 1..=3 => 1, 4..=6 => 2, _ => 3 };
+        let ns = match r.next_u32() % 8 { 0..=3 => 0, 4..=6 => 1, _ => 2 };
+        let (nc, ns) = if nc + ns == 0 { (1, 0) } else { (nc, ns) };
+        let tr = (r.next_u32() as usize) % sp.traces.len();
+        let mut s = SimSys::new(sp.traces[tr].clone(), delays[(r.next_u32() as usize) % delays.len()]);
+        for side in 0..2 {
+            for _ in 0..(if side == 0 { nc } else { ns }) {
+                let ms = r.next_u64();
+                let n = 3 + (r.next_u32() % 4) as usize;
+                let m = crate::fam::corpus_machine(ms, n);
+                let name = format!("corpus[{ms:#x},{n}]");
+                if side == 0 {
+                    s.client.push(m);
+                    s.client_names.push(name);
+                } else {
+                    s.server.push(m);
+                    s.server_names.push(name);
+                }
+            }
+        }
+        s.seed = r.next_u64();
+        v.push(s);
+    }
+    v
+}
+
 /// One side sends n packets 100 ns apart; a machine on that side blocks outgoing traffic on the first one
 /// for longer than the trace lasts, so n - 1 packets wait in the blocked queue together.
 pub fn c15_mass_systems(q: bool) -> Vec<SimSys> {
@@ -693,10 +728,13 @@ pub fn worker_c15(ctx: &WorkerCtx) -> WorkerOut {
     let total0 = n + 6 * (n / 41);
     // many packets held back at once by one long block (the blocked queue grows past a thousand entries)
     let mass = c15_mass_systems(q);
-    let build = |i: usize| -> Option<SimSys> { if i >= total0 { Some(mass[i - total0].clone()) } else { build(i) } };
-    let total = total0 + mass.len();
+    let corp = corpus_systems(&sp, ctx.seed.wrapping_add(1015), if q { 3000 } else { 60000 }, &delays);
+    let total1 = total0 + mass.len();
+    let build = |i: usize| -> Option<SimSys> { if i >= total1 { Some(corp[i - total1].clone()) } else if i >= total0 { Some(mass[i - total0].clone()) } else { build(i) } };
+    let total = total1 + corp.len();
     let mut b = bounds(&sp, total, &delays);
     b["systems_with_over_a_thousand_packets_blocked_at_once"] = json!(mass.len());
+    b["sampled_systems_of_generated_machines"] = json!(corp.len());
     let res = run_jobs("C15", total, &build, &judge_c15, ctx);
     finish("C15", res, "one job = one closed system (trace x delay x machine sets x fractions x continue flag), run on the real sim_advanced; oracle: time order, exact sent/received matching per side and kind with the network delay, normal packet conservation. distinct_nontrivial = distinct output traces containing padding or blocking", b, 1000, ctx, vec![ASSUME.into()])
 }
@@ -726,8 +764,11 @@ pub fn worker_c16(ctx: &WorkerCtx) -> WorkerOut {
         }
         Some(sp.build(&j))
     };
-    let b = bounds(&sp, n, &delays);
-    let res = run_jobs("C16", n, &build, &judge_c16, ctx);
+    let corp = corpus_systems(&sp, ctx.seed.wrapping_add(1016), if q { 3000 } else { 60000 }, &delays);
+    let build = |i: usize| -> Option<SimSys> { if i >= n { Some(corp[i - n].clone()) } else { build(i) } };
+    let mut b = bounds(&sp, n + corp.len(), &delays);
+    b["sampled_systems_of_generated_machines"] = json!(corp.len());
+    let res = run_jobs("C16", n + corp.len(), &build, &judge_c16, ctx);
     finish("C16", res, "one job = one closed system with at least one blocking gadget (all four bypass/replace combinations, overlapping and back-to-back blocks, durations from 0), run on the real sim_advanced; per-side monitor: window per the contract, exactly one BlockingEnd at expiry, every TunnelSent inside the window must be bypass-flagged, allowed by every action that started/updated the blocking, and earned by a bypass padding action. distinct_nontrivial = distinct output traces with at least one BlockingBegin", b, 1000, ctx, vec![ASSUME.into()])
 }
 pub fn worker_c17(ctx: &WorkerCtx) -> WorkerOut {
@@ -753,8 +794,11 @@ pub fn worker_c17(ctx: &WorkerCtx) -> WorkerOut {
         }
         Some(sp.build(&j))
     };
-    let b = bounds(&sp, n, &delays);
-    let res = run_jobs("C17", n, &build, &judge_c17, ctx);
+    let corp = corpus_systems(&sp, ctx.seed.wrapping_add(1017), if q { 3000 } else { 60000 }, &delays);
+    let build = |i: usize| -> Option<SimSys> { if i >= n { Some(corp[i - n].clone()) } else { build(i) } };
+    let mut b = bounds(&sp, n + corp.len(), &delays);
+    b["sampled_systems_of_generated_machines"] = json!(corp.len());
+    let res = run_jobs("C17", n + corp.len(), &build, &judge_c17, ctx);
     finish("C17", res, "one job = one closed system with padding/blocking/cancel gadgets (timeouts from 0, actions re-issued before they fire, cancels of each timer kind, several machines per side); per-side, per-machine monitor of pending action vs reported PaddingSent/BlockingBegin. distinct_nontrivial = distinct output traces with at least one action-timer firing", b, 1000, ctx, vec![ASSUME.into()])
 }
 pub fn worker_c18(ctx: &WorkerCtx) -> WorkerOut {
@@ -812,8 +856,12 @@ pub fn worker_c18(ctx: &WorkerCtx) -> WorkerOut {
         }
         Some(sp.build(&j))
     };
-    let total = n + integ.len();
+    let corp = corpus_systems(&sp, ctx.seed.wrapping_add(1018), if q { 3000 } else { 60000 }, &delays);
+    let total0 = n + integ.len();
+    let build = |i: usize| -> Option<SimSys> { if i >= total0 { Some(corp[i - total0].clone()) } else { build(i) } };
+    let total = total0 + corp.len();
     let mut b = bounds(&sp, total, &delays);
+    b["sampled_systems_of_generated_machines"] = json!(corp.len());
     b["systems_with_a_reporting_delay_integration"] = json!(integ.len());
     b["reporting_delays_us_client_server"] = json!(rds.iter().map(|x| vec![x.0, x.1]).collect::<Vec<_>>());
     let res = run_jobs("C18", total, &build, &judge_c18, ctx);
@@ -1079,7 +1127,10 @@ pub fn worker_c19(ctx: &WorkerCtx) -> WorkerOut {
     let nj = jobs.len();
     let mut b = bounds(&sp, nj + deep.len(), &delays);
     b["systems_with_thousands_of_pending_aggregate_delays_on_a_2MiB_stack"] = json!(deep.len());
-    let res = run_jobs("C19", nj + deep.len(), &|i| if i < nj { Some(sp.build(&jobs[i])) } else { Some(deep[i - nj].clone()) }, &judge_c19, ctx);
+    let corp = corpus_systems(&sp, ctx.seed.wrapping_add(1019), if q { 3000 } else { 60000 }, &delays);
+    b["sampled_systems_of_generated_machines"] = json!(corp.len());
+    let nd = nj + deep.len();
+    let res = run_jobs("C19", nd + corp.len(), &|i| if i < nj { Some(sp.build(&jobs[i])) } else if i < nd { Some(deep[i - nj].clone()) } else { Some(corp[i - nd].clone()) }, &judge_c19, ctx);
     finish("C19", res, "one job = one closed system x packets-per-second limit {none,1,2,10,1000,2^32-1,2^32,usize::MAX} x max_trace_length {0,1,5, and 2^33, 2^48, usize::MAX on every 211th system} x max_sim_iterations {1,7,120} x both continue settings x all four filter combinations x seeds {0, 1, 7, u64::MAX} (client seed s, server seed s+1 wrapping); oracle: no panic, two runs on clones of the same queue identical, filtered outputs equal the projection (prefix under a length cap) of the unfiltered trace, stop bounds respected, time ordered. distinct_nontrivial = distinct output traces containing padding, blocking or timers", b, 1000, ctx, vec![ASSUME.into()])
 }
 
